@@ -1,6 +1,7 @@
 package nutsdb
 
 import (
+	"fmt"
 	"io/ioutil"
 	"os"
 	"sync"
@@ -68,4 +69,52 @@ func TestKF_SparseReadersRaceOnRootIdxes(t *testing.T) {
 	}
 	wg.Wait()
 	db.Close()
+}
+
+// fixed: two databases in one process, sparse index mode - every segment rotation runs BPTree.WriteNodes, which
+// walked the tree through the package-level variable `queue`, shared by all databases and protected by no lock
+func TestKF_TwoSparseDBsShareTheNodeQueue(t *testing.T) {
+	var wg sync.WaitGroup
+	errs := make(chan string, 100)
+	for d := 0; d < 2; d++ {
+		wg.Add(1)
+		go func(d int) {
+			defer wg.Done()
+			dir, _ := ioutil.TempDir("", "kf")
+			defer os.RemoveAll(dir)
+			opt := DefaultOptions
+			opt.Dir = dir
+			opt.SegmentSize = 512
+			opt.EntryIdxMode = HintBPTSparseIdxMode
+			db, err := Open(opt)
+			if err != nil {
+				errs <- err.Error()
+				return
+			}
+			defer db.Close()
+			for i := 0; i < 300; i++ {
+				k := fmt.Sprintf("key%04d", i)
+				if err := db.Update(func(tx *Tx) error { return tx.Put("bk", []byte(k), []byte("value-"+k), Persistent) }); err != nil {
+					errs <- fmt.Sprintf("db %d put %s: %v", d, k, err)
+					return
+				}
+			}
+			_ = db.View(func(tx *Tx) error {
+				for i := 0; i < 300; i++ {
+					k := fmt.Sprintf("key%04d", i)
+					e, err := tx.Get("bk", []byte(k))
+					if err != nil || string(e.Value) != "value-"+k {
+						errs <- fmt.Sprintf("REPRODUCED: db %d: Get(%s) after concurrent commits on another database: %v", d, k, err)
+						return nil
+					}
+				}
+				return nil
+			})
+		}(d)
+	}
+	wg.Wait()
+	close(errs)
+	for e := range errs {
+		t.Error(e)
+	}
 }
